@@ -3,7 +3,8 @@
     reports each identifier of a qualifying reference exactly once.  The agreement of the scope
     model with Lua's scoping outside the known classes K1-K5 (C01_agreement_statement below) is
     evaluated on every case by the correspondence run; its general proof is still open. *)
-From Selene Require Import Scope.Interp Scope.Balanced Scope.Spec Scope.Zones Lints.ScopeLints Lints.ScopeLintsFacts.
+From Selene Require Import Scope.Interp Scope.Balanced Scope.Spec Scope.Zones Lints.ScopeLints Lints.ScopeLintsFacts
+  Scope.Fragment Scope.Agreement.
 
 Theorem C01_report_exactly_once : forall s roots,
   NoDup (undefined_report s roots) /\
@@ -26,6 +27,19 @@ Theorem C01_close_never_pops_root : forall chunk pre post s,
   run init_st pre = Some s -> (2 <= List.length (stack s))%nat.
 Proof. exact close_never_pops_root. Qed.
 Print Assumptions C01_close_never_pops_root.
+
+(** Agreement with Lua, the direction users rely on most, proved for every program without function
+    *expressions* (function statements, local functions, methods, every block / loop / if form and all
+    known-class situations K1-K5 included): an identifier that Lua binds to a local variable, parameter,
+    loop variable or `self` is never reported, whatever the standard library is.  [ok_block] and the
+    distinctness of token ranges are checked on every generated case (code bit 2 / evidence). *)
+Theorem C01_never_reports_locals : forall chunk roots s,
+  ok_block chunk = true ->
+  NoDup (map (fun o => t_range (o_tok o)) (occs chunk)) ->
+  scope_manager chunk = Some s ->
+  forall o d, In o (occs chunk) -> o_bind o = OLocal d -> ~ In (t_range (o_tok o)) (undefined_report s roots).
+Proof. exact undefined_never_on_locals. Qed.
+Print Assumptions C01_never_reports_locals.
 
 (** the full statement, evaluated per case (pending proof) *)
 Definition C01_agreement_statement : Prop :=
